@@ -131,8 +131,6 @@ theorem genDigits_step (ev : Bool) (f R s P Q : Nat) (acc : List Nat) :
         else ((R / s + 1) :: acc).reverse
       else if ¬ Rel ev s (R % s + P) then (R / s :: acc).reverse
       else if R % s * 2 < s then (R / s :: acc).reverse
-      else if R % s * 2 > s then ((R / s + 1) :: acc).reverse
-      else if (R / s % 2 == 0) = true then (R / s :: acc).reverse
       else ((R / s + 1) :: acc).reverse := by
   rw [genDigits.eq_2]; cases ev <;> simp [Rel]
 
@@ -229,11 +227,7 @@ theorem gen_spec (ev : Bool) (r s mp mm : Nat) (hs : 0 < s) (hmp : 0 < mp) :
         have ghi := good_hi ev r s mp mm R acc hs hA hacc (hd1 h2) h2
         split
         · exact glo
-        · split
-          · exact ghi
-          · split
-            · exact glo
-            · exact ghi
+        · exact ghi
       · rw [if_pos h2]
         exact good_lo ev r s mp mm R acc hmp hA hacc hd h1
     · rw [if_pos h1]
